@@ -2,7 +2,7 @@
 #define HX_HAS_ROTATION 0
 #include "generic.h"
 namespace hx {
-using B_b09 = manif::Bundle<double, manif::R1, manif::SE3, manif::SO2, manif::SE_2_3, manif::SE2>;
+using B_b09 = manif::Bundle<HX_SC, manif::R1, manif::SE3, manif::SO2, manif::SE_2_3, manif::SE2>;
 template <> struct Extra<B_b09> {
   static bool run(const Req& r, Resp& R) {
     // element<i>() views alias exactly the i-th element's coefficients
